@@ -216,6 +216,57 @@ def systematic_matrices(dtypes=("float64", "complex128"), fermionic_opts=(False,
                             yield m
 
 
+RICH_POOL = {
+    "Z2": [0, 1],
+    "Z4": [0, 1, 2, 3],
+    "U1": [-1, 0, 1],
+    "Z2Z2": [(0, 0), (0, 1), (1, 0), (1, 1)],
+    "U1U1": [(0, 0), (0, 1), (1, 0), (1, 1)],
+}
+
+
+def rich_indices(rng, sym, nd, sizes=(1, 2), kmin=2, kmax=3):
+    """Index specs drawn from one small common charge pool, so that many sectors are valid
+    (independent random tables leave one or two valid sectors and nothing to zero-fill)."""
+    out = []
+    pool = RICH_POOL[sym]
+    for _ in range(nd):
+        k = int(rng.integers(min(kmin, len(pool)), min(kmax, len(pool)) + 1))
+        pick = sorted(rng.choice(len(pool), size=k, replace=False).tolist())
+        out.append({"cm": [[jcharge(pool[i]), int(rng.choice(sizes))] for i in pick], "dual": bool(rng.integers(0, 2))})
+    return out
+
+
+def forces_zero_fill(spec, groups):
+    """Does fusing `groups` of the array described by `spec` have to create zeros?  (Harness'
+    own reasoning, used only to steer generation: a fused block is a grid over the sub-sectors
+    of each group that occur anywhere in the array; a grid cell without a stored block is zero.)"""
+    sym = spec["sym"]
+    duals = [i["dual"] for i in spec["indices"]]
+    valid = spec_valid_sectors(spec)
+    stored = valid if spec.get("sectors", "all") == "all" else [tuple(ucharge(c) for c in s) for s in spec["sectors"]]
+    grouped = {a for g in groups for a in g}
+    rest = [a for a in range(len(duals)) if a not in grouped]
+    ext = [dict() for _ in groups]
+    cells = {}
+    for s in stored:
+        key = []
+        for n, g in enumerate(groups):
+            t = tuple(s[a] for a in g)
+            c = G.signed_sum(sym, t, [duals[a] for a in g])
+            ext[n].setdefault(c, set()).add(t)
+            key.append(c)
+        key = (tuple(key), tuple(s[a] for a in rest))
+        cells[key] = cells.get(key, 0) + 1
+    for (cs, _), n in cells.items():
+        full = 1
+        for k, c in enumerate(cs):
+            full *= len(ext[k][c])
+        if n < full:
+            return True
+    return False
+
+
 _FUSE_GROUPS = {
     3: [[[0], [1, 2]], [[0, 1], [2]], [[0, 2], [1]], [[1], [2, 0]], [[2, 1], [0]]],
     4: [[[0, 1], [2, 3]], [[0, 2], [1, 3]], [[0], [1, 2, 3]], [[0, 1, 2], [3]], [[2, 0], [3, 1]], [[3], [0, 2, 1]]],
@@ -233,7 +284,10 @@ def random_matrix(rng, dtypes=("float64", "complex128"), fermionic=None, fused=N
     lazy = fermionic and rng.random() < 0.6
     if fused:
         nd = int(rng.integers(3, 5))
-        spec = rand_array_spec(rng, sym, ndim=nd, fermionic=fermionic, max_charges=2 if nd == 4 else 3, sizes=(1, 2), sparsity=sparsity, dtype=dtype, lazy=lazy)
+        if rng.random() < 0.3:
+            spec = rand_array_spec(rng, sym, ndim=nd, fermionic=fermionic, max_charges=2 if nd == 4 else 3, sizes=(1, 2), sparsity=sparsity, dtype=dtype, lazy=lazy)
+        else:
+            spec = rand_array_spec(rng, sym, fermionic=fermionic, sparsity=float(rng.choice([0.0, 0.3, 0.5])), dtype=dtype, lazy=lazy, indices=rich_indices(rng, sym, nd))
         groups = _FUSE_GROUPS[nd][int(rng.integers(0, len(_FUSE_GROUPS[nd])))]
         ops = list(spec.get("pre_ops", ())) + [["fuse", groups]]
         if fermionic and rng.random() < 0.5:
